@@ -10,16 +10,16 @@
        same set of interaction ids, each with equal content, tags up to order.
    Proved: (1) the three collect passes (enum names, declared tags, duplicate TYPE names) for arbitrary
    forests; (2) the fold add_all for forests of declarations (childless SERVER / TYPE / TAG / ENUM).
-   MISSING: the fold over URL / method trees (their steps touch the interaction and tag collections and the
-   run-wide path sets: one needs that every adder's verdict and its effect on OTHER entries is independent of
-   the order, i.e. the state relation "equal up to the order of every collection" is preserved by every
-   add_directive step - the walk of CatalogProofs.add_directive_effect once more, over two states), the
-   path-variable stage, and the assembly of (1)+(2) into a statement about build. *)
+   (3) one declaration moved across trees of any kind (server_moved / type_moved / enum_moved / tag_moved);
+   (4) two adjacent trees that make interactions exchanged, and a run of such trees permuted
+   (inter_trees_swapped_partial, build_order_free_partial), under decidable side conditions.
+   MISSING: the assembly of (3) and (4) into ONE statement about an arbitrary permutation of the forest;
+   interaction trees under declared or shared tags, with path parameters, or with Path directives. *)
 From Coq Require Import List NArith Bool String Permutation.
 From JV.lib Require Import Bytes.
 From JV.gen Require Import DirectiveTables TagName.
 From JV.model Require Import ScannerSem Core PathParams TagTitle Catalog.
-From JV.proofs Require Import CatalogProofs FaithfulProofs LocalityProofs OrderProofs PathVarProofs FrameProofs InsertProofs TagFrameProofs TagInsertProofs FaithfulExamples LocalityExamples.
+From JV.proofs Require Import CatalogProofs FaithfulProofs LocalityProofs OrderProofs PathVarProofs FrameProofs InsertProofs TagFrameProofs TagInsertProofs FaithfulExamples LocalityExamples SwapListProofs SwapProofs SwapTreeProofs SwapExamples.
 From JV.model Require AllOf.
 From JV.spec Require AllOfSpec MacroSpec.
 From JV.proofs Require AllOfProofs MacroProofs.
@@ -171,15 +171,100 @@ Proof. exact tag_moved_lemma. Qed.
 Print Assumptions tag_moved_partial.
 
 (* ======================================================================================= *)
-(* ingredients for swapping trees that make interactions (proofs/PathVarProofs.v).
-   NOT PROVED: inter_trees_swapped_partial itself (build (a ++ t1 :: t2 :: b) vs build (a ++ t2 :: t1 :: b) under
-   a disjointness hypothesis).  What is there: the path-variable stage and the similar-path state are order
-   independent (below); the run-wide sets b_urls / b_protocols are only tested for membership.  What is missing:
-   the two-sided simulation of the steps of t2 over a state that already holds t1's interactions and automatic
-   tags (the analogue of C20 step_srel / step_grel for the interaction collection: om_get / om_update at the
-   ids of t2 are unaffected by entries with other ids; tags_for over a tag collection with other automatic
-   tags appended - TagInsertProofs.tags_for_ins is the one-entry version), and that a successful
-   check_similar_paths pair can be swapped (sp_lookup_after gives the lookups of the state after a check). *)
+(* two ADJACENT top-level trees that make interactions, exchanged (proofs/GenFrameProofs.v: the generic frame
+   lemma  add_directive t anc (G s) = cmap G (add_directive t anc s)  for a transformer G of the interaction / tag
+   collections and the run-wide URL / protocol lists; proofs/SwapProofs.v, SwapTreeProofs.v: its two instances
+   "a base in front" and "two adjacent blocks exchanged").
+
+   swappable t1 t2 (a boolean, decidable on the two trees alone) = for both trees: every node is URL / GET / POST /
+   PUT / PATCH / DELETE / Query / Request / response code / Body / Headers / Description / Protocol / Method /
+   Params / Result (no Tags, no Path directive), no path has a {parameter}, every directive inside resolves to an
+   interaction the tree itself makes; and the automatic tag names of t1 and of t2 are different.
+   fresh_tags a t1 t2 b (a boolean on the forest) = those automatic tag names are neither declared by a TAG of the
+   forest nor already made by a tree of a.
+   swapmid n m1 m2 l = l with the block of m1 entries after the first n exchanged with the next m2 entries
+   (swap_blocks_reading).  By C04 catalog_keys the entries at those offsets are the interactions of t1 / t2, and
+   the automatic tags they create.
+
+   PARTIAL.  Not covered: trees whose interactions go under a declared tag (Tags directive, or an automatic
+   name that is declared or made earlier: the tag ENTRY is then shared with other trees and only the order of the
+   ids inside it changes - needs the insertion instance instead of "a base in front"), paths with parameters
+   (similar-path state: PathVarProofs.sp_equiv is the relation to carry), Path directives (path-variable stage:
+   bind_all_order_free below). *)
+Theorem inter_trees_swapped_partial : forall pp bt banned a t1 t2 b c,
+  swappable t1 t2 = true -> fresh_tags a t1 t2 b = true ->
+  build pp bt banned (a ++ t1 :: t2 :: b) = COk c ->
+  exists c', build pp bt banned (a ++ t2 :: t1 :: b) = COk c' /\
+    c_jsight c' = c_jsight c /\ c_info c' = c_info c /\ c_servers c' = c_servers c /\
+    c_types c' = c_types c /\ c_enums c' = c_enums c /\
+    c_inters c' = swapmid (List.length (method_ids (positions_all a))) (List.length (method_ids (positions t1 [])))
+                          (List.length (method_ids (positions t2 []))) (c_inters c) /\
+    c_tags c' = swapmid (List.length (fold_left add_new (auto_uses (positions_all a)) (declared_tag_names (a ++ t1 :: t2 :: b))))
+                        (List.length (fold_left add_new (auto_uses (positions t1 [])) []))
+                        (List.length (fold_left add_new (auto_uses (positions t2 [])) [])) (c_tags c).
+Proof. exact inter_trees_swapped_lemma. Qed.
+Print Assumptions inter_trees_swapped_partial.
+
+Theorem swap_blocks_reading : forall (A : Type) (a b c d : list A),
+  swapmid (List.length a) (List.length b) (List.length c) (a ++ b ++ c ++ d) = a ++ c ++ b ++ d.
+Proof. exact @swapmid_blocks. Qed.
+Print Assumptions swap_blocks_reading.
+
+(* the hypotheses hold for two URL blocks with different first segments (one HTTP, one JSON-RPC), among other
+   trees; a later GET /cats/all joins the automatic tag @cats in both orders *)
+Theorem swappable_example :
+  swappable ex_url_cats ex_url_rpc = true /\ swappable ex_url_rpc ex_url_cats = true /\
+  fresh_tags ex_head ex_url_cats ex_url_rpc ex_tail = true /\
+  exists c c',
+    ex_build (ex_head ++ ex_url_cats :: ex_url_rpc :: ex_tail) = COk c /\
+    ex_build (ex_head ++ ex_url_rpc :: ex_url_cats :: ex_tail) = COk c' /\
+    map (fun e => iid_string (fst e)) (c_inters c) =
+      [bs "http GET /dogs"; bs "http GET /cats"; bs "http POST /cats"; bs "json-rpc-2.0 foo /rpc"; bs "http GET /cats/all"] /\
+    map (fun e => iid_string (fst e)) (c_inters c') =
+      [bs "http GET /dogs"; bs "json-rpc-2.0 foo /rpc"; bs "http GET /cats"; bs "http POST /cats"; bs "http GET /cats/all"] /\
+    map fst (c_tags c) = [bs "@pets"; bs "@dogs"; bs "@cats"; bs "@rpc"] /\
+    map fst (c_tags c') = [bs "@pets"; bs "@dogs"; bs "@rpc"; bs "@cats"] /\
+    c_inters c' = swapmid 1 2 1 (c_inters c) /\ c_tags c' = swapmid 2 1 1 (c_tags c).
+Proof. exact SwapExamples.swappable_example. Qed.
+Print Assumptions swappable_example.
+
+(* not swappable: a tree under a declared tag; two trees with the same first segment (each fine by itself) *)
+Theorem not_swappable_example :
+  swappable ex_url_tagged ex_url_rpc = false /\ swappable ex_url_cats ex_get_cats_id = false /\
+  tree_ok ex_get_cats_id = true.
+Proof. exact SwapExamples.not_swappable_example. Qed.
+Print Assumptions not_swappable_example.
+
+(* iterated (Permutation_ind_transp: adjacent transpositions generate the permutations): a RUN of such trees,
+   standing together, in any order.  seg_ok a decl seg (a boolean) = every tree of seg passes the one-tree part of
+   swappable, its automatic tag names are not in decl and not made by a tree of a, and no two trees of seg share
+   an automatic tag name.  cat_equiv c c' = same JSIGHT / INFO / servers / types / enums, interactions and tags
+   equal up to the order of the entries.
+   PARTIAL with respect to the full statement at the top of this file: the permuted trees must stand together
+   (the declarations in a and b stay where they are; they can be moved one at a time by server_moved /
+   type_moved / enum_moved / tag_moved above, whose side conditions are about the other trees - the two families
+   are not assembled into one theorem about an arbitrary permutation of the whole forest), plus the
+   restrictions of inter_trees_swapped_partial. *)
+Theorem build_order_free_partial : forall pp bt banned a seg seg' b,
+  Permutation seg seg' -> seg_ok a (declared_tag_names (a ++ b)) seg = true ->
+  forall c, build pp bt banned (a ++ seg ++ b) = COk c ->
+  exists c', build pp bt banned (a ++ seg' ++ b) = COk c' /\ cat_equiv c c'.
+Proof. exact inter_trees_permuted_lemma. Qed.
+Print Assumptions build_order_free_partial.
+
+Theorem permuted_example :
+  seg_ok ex_head (declared_tag_names (ex_head ++ ex_tail2)) ex_seg = true /\ Permutation ex_seg (rev ex_seg) /\
+  exists c c',
+    ex_build (ex_head ++ ex_seg ++ ex_tail2) = COk c /\ ex_build (ex_head ++ rev ex_seg ++ ex_tail2) = COk c' /\
+    map fst (c_tags c) = [bs "@pets"; bs "@dogs"; bs "@cats"; bs "@rpc"; bs "@fish"] /\
+    map fst (c_tags c') = [bs "@pets"; bs "@dogs"; bs "@fish"; bs "@rpc"; bs "@cats"].
+Proof. exact SwapExamples.permuted_example. Qed.
+Print Assumptions permuted_example.
+
+(* ======================================================================================= *)
+(* the order-sensitive stages the swap theorem does not go through (trees with Path directives or with
+   {parameters} in their paths): order independence of the path-variable stage and of the similar-path state
+   (proofs/PathVarProofs.v) *)
 
 (* when the binding of path variables succeeds, and with what (pv_bound v = the (prefix, name) pairs the Path
    directive v binds, pv_left v = its properties that no parameter takes) *)
